@@ -15,7 +15,7 @@
    One state = one case (configuration x request); `Family` selects the family a run enumerates. *)
 EXTENDS Integers, Sequences, FiniteSets, TLC, Json
 
-CONSTANTS Family,    \* "hdr" | "hdrl" | "path" | "redir" | "direct" | "tmo" | "pfc"
+CONSTANTS Family,    \* "hop" | "hdr" | "hdrl" | "path" | "redir" | "direct" | "tmo" | "pfc"
           Defects,   \* {} = intended design
           Big        \* TRUE: thorough universes
 
@@ -177,6 +177,21 @@ SemPath(c) == SemRewrite(MatchedLen(c), c.pr, c.rr, ReqPath(c))
 (* rewrites given to the routes of the retry runs (RouteActionRetry): rule prefix "/", so a prefix_rewrite output
    still matches the rule, and regex patterns that do / do not match their own output *)
 RetryRewrites == { [pr |-> <<>>, rr |-> "none"], [pr |-> <<"/", "b", "/">>, rr |-> "none"], [pr |-> <<>>, rr |-> "R6"], [pr |-> <<>>, rr |-> "R5"] }
+(* MARKERS: a request may already carry headers that MOSN itself adds or names its variables after - it may come from
+   another MOSN that rewrote, or from a client that sends them.  mk = what the request brings:
+     "none" | "orig-same" (x-mosn-original-path = the path it asks for) | "orig-other" (x-mosn-original-path = /zz)
+     | "xmosn" (x-mosn-host, x-mosn-path, x-mosn-querystring with foreign values)
+   The configured action applies exactly, whatever the request brings. *)
+Markers == {"none", "orig-same", "orig-other", "xmosn"}
+OtherOrig == <<"/", "z", "z">>
+InOrigOf(mk, path) == CASE mk = "orig-same" -> path [] mk = "orig-other" -> OtherOrig [] OTHER -> <<>>
+(* one hop: the path it forwards and what x-mosn-original-path holds afterwards: the path as THIS hop received it when
+   this hop rewrote it, else whatever the request brought (it is a request header like any other) *)
+HopPath(m, pr, rr, path) == SemRewrite(m, pr, rr, path)
+HopOrig(m, pr, rr, path, inorig) == IF SemRewrite(m, pr, rr, path) # path THEN path ELSE inorig
+ImplHopPath(m, pr, rr, path, inorig) ==
+  IF "RewriteSkippedWhenMarked" \in Defects /\ inorig # <<>> THEN path ELSE SemRewrite(m, pr, rr, path)
+
 (* Impl: base_rule.go finalizePathHeader compares the request path with the configured matcher *)
 Configured(c) == IF c.rule = "prefix" THEN PrefixA ELSE c.path
 SameFold(p, s) == Len(p) <= Len(s) /\ \A i \in DOMAIN p : Up(p[i]) = Up(s[i])
@@ -184,13 +199,25 @@ ImplPath(c) ==
   LET path == ReqPath(c)
       hit  == IF "RewriteCaseSensitive" \in Defects THEN IsPrefix(Configured(c), path) ELSE SameFold(Configured(c), path)
   IN IF c.pr = <<>> /\ c.rr = "none" THEN path
+     ELSE IF "RewriteSkippedWhenMarked" \in Defects /\ InOrigOf(c.mk, path) # <<>> THEN path
      ELSE IF c.pr # <<>> /\ ~("RegexOverPrefix" \in Defects /\ c.rr # "none")
           THEN (IF hit
                 THEN (IF "PrefixRewriteKeepsPrefix" \in Defects THEN c.pr \o path ELSE c.pr \o Rest(Configured(c), path))
                 ELSE path)
           ELSE RegexApply(c.rr, path)
-(* the original path is recorded in x-mosn-original-path exactly when the path was rewritten *)
-SemOrig(c) == IF SemPath(c) # ReqPath(c) THEN ReqPath(c) ELSE <<>>
+(* x-mosn-original-path afterwards: the path as this hop received it exactly when this hop rewrote it *)
+SemOrig(c) == IF SemPath(c) # ReqPath(c) THEN ReqPath(c) ELSE InOrigOf(c.mk, ReqPath(c))
+
+(* TWO HOPS (family "hop"): listener 1 rewrites and forwards to listener 2 of the same MOSN, which rewrites again and
+   forwards to the upstream; both routes are prefix "/" rules with a rewrite of RetryRewrites *)
+HopCases == [h1 : RetryRewrites, h2 : RetryRewrites, path : {PathA, PathB}]
+SemHop(c) == LET p1 == HopPath(1, c.h1.pr, c.h1.rr, c.path)
+                 o1 == HopOrig(1, c.h1.pr, c.h1.rr, c.path, <<>>)
+             IN [path |-> HopPath(1, c.h2.pr, c.h2.rr, p1), orig |-> HopOrig(1, c.h2.pr, c.h2.rr, p1, o1)]
+ImplHop(c) == LET p1 == ImplHopPath(1, c.h1.pr, c.h1.rr, c.path, <<>>)
+                  o1 == IF p1 # c.path THEN c.path ELSE <<>>
+                  p2 == ImplHopPath(1, c.h2.pr, c.h2.rr, p1, o1)
+              IN [path |-> p2, orig |-> IF p2 # p1 THEN p1 ELSE o1]
 
 (* host towards an HTTP/1.1 upstream: host_rewrite, else the value of the header named by
    auto_host_rewrite_header (as it stands after the header mutations), else the request's host *)
@@ -211,11 +238,12 @@ ImplHost(c) == LET h == ImplHdr(PathHdrLevels(c), PathHdrIn(c), NoEnv)
                ELSE OrigHost
 
 PathCases == { c \in [rule : {"prefix", "path", "regex"}, pr : PrMenu, rr : RxMenu, hr : {"", "rw.host"},
-                      ahrh : {"", "x-a"}, radd : BOOLEAN, path : Paths, query : {"", "k=v"}, xa : {Absent, "c.host"}, ci : BOOLEAN] :
+                      ahrh : {"", "x-a"}, radd : BOOLEAN, path : Paths, query : {"", "k=v"}, xa : {Absent, "c.host"}, ci : BOOLEAN, mk : Markers] :
                /\ (c.pr # <<>> => c.rule # "regex")        \* prefix_rewrite on a regex rule has no matched prefix to replace
                /\ (c.ahrh = "" => (~c.radd /\ c.xa = Absent))
                /\ (c.ci => (c.rule = "path" /\ c.query = "" /\ c.hr = "" /\ c.ahrh = ""))
-               /\ (~Big => (c.query = "k=v" => c.rr \in {"none", "R1"})) }
+               /\ (~Big => (c.query = "k=v" => c.rr \in {"none", "R1"}))
+               /\ (c.mk # "none" => (c.query = "" /\ ~c.radd /\ c.xa = Absent /\ (Big \/ c.path # PathC))) }
 
 (* ------------------------------------------------------------------ redirect and direct response *)
 CurrentScheme == "http"      \* the listeners of the harness are plain HTTP/1
@@ -223,7 +251,7 @@ RHosts == { [n |-> "h.local", p |-> ""], [n |-> "h.local", p |-> "80"], [n |-> "
 HostStr(h) == IF h.p = "" THEN h.n ELSE h.n \o ":" \o h.p
 RPath == "/a/x"
 RedirCases == [scheme : {"", "https", "http"}, rhost : {"", "r.host"}, rpath : {"", "/new"},
-               code : {0, 301, 302, 303, 307, 308}, host : RHosts, query : {"", "k=v"}]
+               code : {0, 301, 302, 303, 307, 308}, host : RHosts, query : {"", "k=v"}, mk : {"none", "xmosn"}]
 DefaultPort(s) == IF s = "https" THEN "443" ELSE "80"
 (* Sem: the port is dropped when the scheme changes and the port is the default port of the scheme left behind *)
 SemLocation(c) ==
@@ -289,7 +317,7 @@ ImplPfc(c) == [route |-> IF "PfcRouteFallsBackToVhost" \in Defects /\ c.route = 
 (* ------------------------------------------------------------------ one state per case *)
 VARIABLE c
 Cases == CASE Family = "hdr" -> HdrCases [] Family = "hdrl" -> HdrListCases [] Family = "path" -> PathCases [] Family = "redir" -> RedirCases
-           [] Family = "direct" -> DirectCases [] Family = "tmo" -> TmoCases [] Family = "pfc" -> PfcCases
+           [] Family = "direct" -> DirectCases [] Family = "tmo" -> TmoCases [] Family = "pfc" -> PfcCases [] Family = "hop" -> HopCases
 Init == c \in Cases
 Next == UNCHANGED c
 Spec == Init /\ [][Next]_c
@@ -314,6 +342,10 @@ PrefixWins     == (Family = "path" /\ c.pr # <<>> /\ c.rule = "prefix") => ImplP
 PathRuleSwapsWholePath == (Family = "path" /\ c.pr # <<>> /\ c.rule = "path") => ImplPath(c) = c.pr
 HostImplIsSem  == Family = "path" => ImplHost(c) = SemHost(c)
 RedirImplIsSem == Family = "redir" => ImplLocation(c) = SemLocation(c) /\ ImplRedirCode(c) = SemRedirCode(c)
+HopImplIsSem   == Family = "hop" => ImplHop(c) = SemHop(c)
+(* both hops rewrite: the upstream gets the twice rewritten path and, as original path, what the SECOND hop received *)
+HopBothRewrite == (Family = "hop" /\ c.h1.pr # <<>> /\ c.h2.pr # <<>>)
+                  => ImplHop(c) = [path |-> c.h2.pr \o Tail(c.h1.pr \o Tail(c.path)), orig |-> c.h1.pr \o Tail(c.path)]
 PfcImplIsSem   == Family = "pfc" => ImplPfc(c) = SemPfc(c)
 TmoImplIsSem   == Family = "tmo" => ImplTimeout(c) = SemTimeout(c)
 TryBelowGlobal == Family = "tmo" => LET r == ImplTimeout(c) IN r.g > 0 /\ (r.t = 0 \/ r.t < r.g)
